@@ -1,4 +1,5 @@
 """Helpers for source-shaped (HIR) rules: function lookup with fail-closed anchors, path facts."""
+import re
 import hirlib as H
 import mirlib as M
 from facts import strip_generics
@@ -173,6 +174,93 @@ def assigns_to(path, lhs_pat, start=0, end=None):
         ev = evs[i]
         if ev.kind == "assign" and H.pat_match(lhs_pat, ev.a):
             out.append(i)
+    return out
+
+
+class Summary:
+    """What one path does, independent of statement order and of named temporaries: the calls it makes (argument
+    texts expressed over the values variables had on entry), the final value of every assigned simple variable
+    (also over entry values), and how it leaves."""
+
+    def __init__(self, path, call_prefixes=None):
+        self.calls = []
+        self.final = {}
+        self.conds = []          # (text over entry values, truth, node, env at that point)
+        self.exit = path.exit
+        self.label = path.label
+        self.val = None
+        env = {}
+        simple = re.compile(r"^[A-Za-z_][A-Za-z_0-9]*$")
+        for ev in path.events:
+            if ev.kind == "let" and simple.match(ev.a or "") and ev.b is not None:
+                env[ev.a] = H.subst_lets(ev.b, env)
+            elif ev.kind == "assign" and simple.match(ev.a or ""):
+                rhs = H.subst_lets(ev.c or "", env)
+                if ev.b == "=":
+                    new = rhs
+                else:
+                    old = env.get(ev.a, ev.a)
+                    l_, r_ = sorted([old, rhs], key=H._ckey) if ev.b[:-1] in ("+", "*", "|", "&", "^") else (old, rhs)
+                    new = "(%s %s %s)" % (l_, ev.b[:-1], r_)
+                env[ev.a] = new
+                self.final[ev.a] = new
+            elif ev.kind == "assign":
+                self.calls.append("%s %s %s" % (H.subst_lets(ev.a, env), ev.b, H.subst_lets(ev.c or "", env)))
+            elif ev.kind == "call":
+                t = H.subst_lets(ev.a or "", env)
+                if call_prefixes is None or any(t.startswith(p) for p in call_prefixes):
+                    self.calls.append(t)
+            elif ev.kind == "cond":
+                self.conds.append((H.subst_lets(ev.a or "", env), ev.b, ev.node, dict(env)))
+            elif ev.kind == "havoc":
+                for nm in ev.a or []:
+                    env.pop(nm, None)
+        self.val = H.subst_lets(path.val, env) if path.val else path.val
+        self.env = env
+
+
+def named_args(ctx, call, env=None):
+    """{parameter name of the callee: canonical argument} for a call to a crate-local function (robust against a
+    change of parameter order)."""
+    callee = call.get("resolved") or call.get("def") if call.get("k") == "MethodCall" else H.peel(call["f"]).get("def")
+    fn = ctx.facts.hir.get(callee)
+    if fn is None:
+        for p_, f_ in ctx.facts.hir.items():
+            if strip_generics(p_) == strip_generics(callee or ""):
+                fn = f_
+    if fn is None:
+        return None
+    args = ([call["recv"]] if call.get("k") == "MethodCall" else []) + list(call.get("args") or [])
+    ps = [p.get("name") for p in fn["params"]]
+    if len(ps) != len(args):
+        return None
+    return {n: H.subst_lets(H.canon(a), env or {}) for n, a in zip(ps, args)}
+
+
+def opt_outcomes(path, scrut_pat):
+    """How the path decided on Option/Result-valued expressions matching `scrut_pat` (a placeholder pattern over the
+    canonical scrutinee): list of (index, 'some'|'none', bound-pattern).  Recognises `match`, `if let`, `let .. else`
+    and `while let`, so the same decision reads the same whichever form the source uses."""
+    out = []
+    for i, ev in enumerate(path.events):
+        if ev.kind == "arm" and H.pat_match(scrut_pat, ev.a or ""):
+            pat = ev.b or ""
+            if pat.startswith("Some(") or pat.startswith("Ok("):
+                out.append((i, "some", pat))
+            elif pat in ("None", "_") or pat.startswith("Err("):
+                out.append((i, "none", pat))
+        elif ev.kind == "letcond" and H.pat_match(scrut_pat, ev.b or "") and ((ev.a or "").startswith("Some(") or (ev.a or "").startswith("Ok(")):
+            out.append((i, "some" if ev.c else "none", ev.a))
+        elif ev.kind == "letcond" and H.pat_match(scrut_pat, ev.b or "") and (ev.a or "") == "None":
+            out.append((i, "none" if ev.c else "some", ev.a))
+        elif ev.kind == "let" and ev.c is True and H.pat_match(scrut_pat, ev.b or "") and ((ev.a or "").startswith("Some(") or (ev.a or "").startswith("Ok(")):
+            out.append((i, "some", ev.a))
+        elif ev.kind == "let-else" and H.pat_match(scrut_pat, ev.b or ""):
+            out.append((i, "none", ev.a))
+        elif ev.kind == "cond" and H.pat_match("%s.is_some()" % scrut_pat, ev.a or ""):
+            out.append((i, "some" if ev.b else "none", ""))
+        elif ev.kind == "cond" and H.pat_match("%s.is_none()" % scrut_pat, ev.a or ""):
+            out.append((i, "none" if ev.b else "some", ""))
     return out
 
 
